@@ -313,7 +313,7 @@ def order_corpus():
 def order_cases(rng, tier):
     cases = order_corpus()
     small = [-1, 0, 1, 2]
-    for _ in range(420 if tier == "quick" else 9000):
+    for _ in range(700 if tier == "quick" else 9000):
         n = rng.randrange(1, 15)
         prios = rng.choice([small, small, small, [I32_MIN, I32_MIN + 1, 0], [16777216, 16777215, 128, 10, -100, -1327]])
         edits = [rand_edit(rng, prios) for _ in range(n)]
@@ -326,6 +326,30 @@ def order_cases(rng, tier):
         edits.append(edit(5, 0, 0, key=b"/a", body=rng.choice(PBODIES)))
         edits.append(edit(6, 0, 0, key=rng.choice(INTERNAL)))
         cases.append(order_case(edits, [rng.choice([b"/a", b"/b.html", b"/zz"])], "order-one-kind"))
+    # targeted: an override URI selecting a path-bound Prepare; several matching predicate-bound Prepares; several registered
+    # extensions on the '!> ' line with arguments; several matching present_fn; several Package / Post
+    for _ in range(240 if tier == "quick" else 5000):
+        path = rng.choice(PATHS)
+        ov = rng.choice(OVERRIDES)
+        names = rng.sample(INTERNAL, rng.randrange(2, 5))
+        line = b"!> " + b" &> ".join(n + b"".join(b" " + token(rng) for _ in range(rng.randrange(0, 3))) for n in names) + rng.choice([b"\n", b"\r\n", b" &>\n"]) + b"B"
+        edits = []
+        if rng.random() < 0.6:
+            edits.append(edit(0, rng.choice([0, 1]), rng.choice(small), payload=xl(xn(0), xb(path), xb(ov))))
+            edits.append(edit(5, 0, 0, key=ov, body=line))
+            if rng.random() < 0.5:
+                edits.append(edit(5, 0, 0, key=path, body=b"by-path"))
+        for _ in range(rng.randrange(2, 5)):
+            edits.append(edit(1, rng.choice([0, 1]), rng.choice(small), payload=xl(xn(1), xb(rng.choice([b"/", b"/", path])), xb(rng.choice([line, b"fn", b"!> hide x\nfn"])))))
+        for _ in range(rng.randrange(0, 3)):
+            edits.append(edit(2, rng.choice([0, 1]), rng.choice(small), payload=xl(xn(2), xb(rng.choice([b"/", path])))))
+        for n in rng.sample(INTERNAL, rng.randrange(2, 6)):
+            edits.append(edit(6, 0, 0, key=n))
+        for k in (3, 4):
+            for _ in range(rng.randrange(1, 4)):
+                edits.append(edit(k, rng.choice([0, 1, 1]), rng.choice(small)))
+        rng.shuffle(edits)
+        cases.append(order_case(edits, [path], "order-targeted"))
     for body in ODD_BODIES:
         cases.append(order_case([edit(5, 0, 0, key=b"/a", body=body), edit(6, 0, 0, key=b"hide"), edit(3, 0, 1)], [b"/a"], "order-outside-grammar", spec=False))
     return cases
